@@ -758,4 +758,41 @@ MinkOK(e, idx) ==
   /\ Has(e, "ARGS") => Chk("ARGS", idx, e.argsSame)
   /\ Has(e, "DET") => Chk("DET", idx, e.sol2same)
   /\ Has(e, "C08") => Chk("C08", idx, C08OK(e))
+
+(***************************************************************************)
+(* Floating-point API against the integer API on quantised input (C07).    *)
+(* Input coordinates are decimals n / 10^d; quantising at precision p is   *)
+(* rounding n * 10^(p-d) to the nearest integer (either neighbour on an    *)
+(* exact tie).  All arithmetic here is BigInt.  e.rd9 holds the D result's *)
+(* coordinates times 10^(p+9); they must equal the 64-bit result's         *)
+(* coordinates (times 10^9) up to 10^-6 plus float64 rounding of the       *)
+(* division (relative 10^-15).                                             *)
+(***************************************************************************)
+Pow10B(k) == LET f[i \in 0..k] == IF i = 0 THEN GB!FromInt(1) ELSE GB!Mul(f[i - 1], GB!FromInt(10)) IN f[k]
+
+QuantOK(n, q, s) ==
+  IF s >= 0 THEN q = GB!Mul(n, Pow10B(s))
+  ELSE GB!Cmp(GB!Mul(GB!AbsB(GB!Sub(n, GB!Mul(q, Pow10B(-s)))), GB!FromInt(2)), Pow10B(-s)) <= 0
+
+QuantPathsOK(A, Q, s) ==
+  /\ Len(A) = Len(Q)
+  /\ \A k \in 1..Len(A) : Len(A[k]) = Len(Q[k]) /\
+        \A i \in 1..Len(A[k]) : QuantOK(A[k][i][1], Q[k][i][1], s) /\ QuantOK(A[k][i][2], Q[k][i][2], s)
+
+CoordMatches(rd9, r64) ==
+  GB!Cmp(GB!Mul(GB!AbsB(GB!Sub(rd9, GB!Mul(r64, Pow10B(9)))), Pow10B(6)), GB!Add(Pow10B(9), GB!AbsB(r64))) <= 0
+
+ResultMatches(RD9, R64) ==
+  /\ Len(RD9) = Len(R64)
+  /\ \A k \in 1..Len(R64) : Len(RD9[k]) = Len(R64[k]) /\
+        \A i \in 1..Len(R64[k]) : CoordMatches(RD9[k][i][1], R64[k][i][1]) /\ CoordMatches(RD9[k][i][2], R64[k][i][2])
+
+C07OK(e) ==
+  IF e.p < -8 \/ e.p > 8 THEN e.out = "panic:precision is out of range"
+  ELSE /\ e.out = "ok" /\ e.ok
+       /\ QuantPathsOK(e.a, e.qa, e.p - e.d) /\ QuantPathsOK(e.b, e.qb, e.p - e.d)
+       /\ ResultMatches(e.rd9, e.r64)
+       /\ e.td = e.t64
+
+DvsIOK(e, idx) == Has(e, "C07") => Chk("C07", idx, C07OK(e))
 =============================================================================
